@@ -92,7 +92,7 @@ PROPS = {
     "C09": {
         "lean": ["AriVerif.Props.C09", "AriVerif.Props.C09S", "AriVerif.Props.C06", "AriVerif.Props.SkelReader"],
         "gen": ["Layouts", "Skeleton"],
-        "streams": [s_wire.stream_requests, s_wire.stream_meta, s_dispatch.stream],
+        "streams": [s_wire.stream_requests, s_wire.stream_meta, s_dispatch.stream, s_wire.stream_concurrent_decode],
         "trusted": [KERNEL, HARNESS, "request layouts hand-written (Requests.schemas), tied by the malformed-stream differential",
                     "modelled, not verified: the remoting_exception_on_parse decorator (every exception inside read_* becomes the "
                     "protocol error naming the method) — compared on every malformed input"],
